@@ -22,6 +22,7 @@ MODULES = {
     "C16": "props.c16",
     "C17": "props.c17",
     "C18": "props.c18",
+    "C19": "props.c19",
 }
 
 if __name__ == "__main__":
